@@ -81,6 +81,8 @@ def events_oracle(ops, lines, known=None):
         elif kind in ("sub", "psub") and ok:
             inst = int(r.split(" ")[1])
             s = Sub(inst, kind, segs(op[3]), op[4], op[5], op[1], op[2])
+            for o_ in subs.values():
+                if o_.active and (o_.c, o_.t) == (op[1], op[2]): o_.orphan = True     # F24: its entry in Worterbuch.subscriptions is overwritten
             subs[inst] = s
             if not s.live and wf_pat(s.pat):
                 if kind == "sub":
@@ -106,6 +108,10 @@ def events_oracle(ops, lines, known=None):
             load_dump(sp, lines[i])
         got = events_of(lines[i])
         dead = [e for e in got if e[0] in subs and not subs[e[0]].active]
+        if dead and all(getattr(subs[e[0]], "orphan", False) for e in dead):
+            if known: known("F24", "a subscription keeps delivering after its unsubscribe/disconnect when a second subscribe was accepted under the same transaction id while it was active (Worterbuch.subscriptions keeps one pattern per id, worterbuch.rs:499,574)")
+            got = [e for e in got if e not in dead]
+            dead = []
         if dead:
             return (i, f"event {dead[0]} delivered to a subscription after its unsubscribe/disconnect")
         if skip:
